@@ -92,9 +92,30 @@ class Evaluator:
         return self._fns[name]
 
     def call(self, name: str, args: list, kwargs: dict, depth: int = 0):
-        fn = self.fn(name)
+        # a name called inside function F resolves to the nested function F.name first (closures), then to the module level
+        fn = None
+        for scope in reversed(getattr(self, "_scopes", [])):
+            fn = self.fn(f"{scope}.{name}")
+            if fn is not None:
+                break
+            parent = scope.rsplit(".", 1)[0] if "." in scope else None
+            if parent and parent.endswith(name) is False:
+                fn = self.fn(f"{parent}.{name}") if parent != scope else None
+                if fn is not None:
+                    break
+        if fn is None:
+            fn = self.fn(name)
         if fn is None:
             raise NotEvaluable(f"call of unknown function {name}")
+        if not hasattr(self, "_scopes"):
+            self._scopes = []
+        self._scopes.append(fn.fi.qualname)
+        try:
+            return self._call_fn(fn, name, args, kwargs, depth)
+        finally:
+            self._scopes.pop()
+
+    def _call_fn(self, fn, name: str, args: list, kwargs: dict, depth: int = 0):
         if depth > self.max_depth:
             raise NotEvaluable(f"call depth exceeded at {name}")
         self.calls += 1
@@ -234,7 +255,7 @@ class Evaluator:
                 return r
             if len(xs) == 2:
                 a, b = xs
-                tbl = {"-": lambda: a - b, "//": lambda: a // b, "%": lambda: a % b, "==": lambda: a == b, "!=": lambda: a != b, "<": lambda: a < b, "<=": lambda: a <= b, ">": lambda: a > b, ">=": lambda: a >= b, "<<": lambda: a << b, ">>": lambda: a >> b}
+                tbl = {"-": lambda: a - b, "//": lambda: a // b, "%": lambda: a % b, "==": lambda: a == b, "!=": lambda: a != b, "<": lambda: a < b, "<=": lambda: a <= b, ">": lambda: a > b, ">=": lambda: a >= b, "<<": lambda: a << b, ">>": lambda: a >> b, "**": lambda: a ** b if 0 <= b <= 64 else (_ for _ in ()).throw(NotEvaluable("exponent"))}
                 if o in tbl:
                     return tbl[o]()
             if o == "neg":
@@ -295,6 +316,10 @@ class Evaluator:
                 raise NotEvaluable("shape_of a non-value")
             if n == "const_of" and len(args) == 2 and isinstance(args[1], ShapeV):
                 return const_bits(args[0], args[1].width)
+            if n == "ceil_log2" and len(args) == 1 and isinstance(args[0], int) and not isinstance(args[0], Bits):
+                return (args[0] - 1).bit_length() if args[0] > 0 else 0
+            if n == "bits_for" and len(args) == 1 and isinstance(args[0], int) and not isinstance(args[0], Bits):
+                return max(1, args[0].bit_length()) if args[0] >= 0 else (-args[0]).bit_length() + 1
             if n in ("min", "max") and args and all(isinstance(a, int) for a in args):
                 return (min if n == "min" else max)(args)
             if n == "Shape":
@@ -346,7 +371,12 @@ class Evaluator:
                 if m == "replicate" and len(args) == 1:
                     return Bits(tuple(recv) * args[0])
                 if m in ("as_unsigned", "as_signed", "as_value") and not args:
-                    return recv
+                    if m == "as_value":
+                        return recv
+                    r = Bits(recv)  # same bits, reinterpreted
+                    if m == "as_signed":
+                        r.signed = True
+                    return r
                 if m in ("any", "bool", "all") and not args:
                     from . import bitalg
 
